@@ -21,7 +21,7 @@ RULE = (
     "widths} x closed x count contents {fingerprint, amplitude-positive, sparse, with zero RR bins} x "
     "autocorrelations {none, ref, unk, both}; oracle: (DD-DR-RD+RR)/RR with RD:=DR if absent, DD/DR-1 or "
     "DD/RD-1 without RR, each term = total count / product of total weights (half the squared total for "
-    "auto); n(z) = w_sp/sqrt(dz^2 w_ss w_pp); normalised() integrates to 1. Non-trivial: finite "
+    "auto); n(z) = w_sp/sqrt(dz^2 w_ss w_pp); normalised() integrates to 1; from_corrdata called twice on the same inputs (inputs unchanged, results equal); after cf.rr = None the same object samples the estimator without RR. Non-trivial: finite "
     "result whose candidate formulas (LS, DP/DR, DP/RD) give pairwise different values."
 )
 ASSUMPTIONS = [
